@@ -274,7 +274,8 @@ def opSampler (j : Json) : Json :=
       | "sample" => .sample (((op.getObjValAs? (List (List Nat)) "draws").toOption).getD [])
       | "switch" => .switch
       | _ => .newSampler
-    let s' := Sampler.step f acc.1 o
+    -- the harness reads `full_df` after every operation, which makes the object load (and keep) the file's table
+    let s' := Sampler.step f (Sampler.step f acc.1 o) .look
     (s', acc.2.push (Json.mkObj [("mem", rowsJson kind (Sampler.fullDf s')), ("disk", rowsJson kind s'.disk)])))
     (({} : Sampler.St Sym), #[])
   Json.mkObj [("obs", Json.arr obs)]
